@@ -43,6 +43,19 @@ pub struct Row {
     pub run: fn(doc_text: &str, vi: usize) -> Result<Obs, String>,
     /// build the view over `doc_text` and return the Debug rendering of the getter's result
     pub get: fn(doc_text: &str) -> Result<String, String>,
+    /// the same on a LIVE view kept between calls (document + view, type-erased): build it, ...
+    pub open_live: fn(doc_text: &str) -> Result<Box<dyn std::any::Any>, String>,
+    /// ... call the setter with value `vi` (returns the Debug rendering the getter must now give), ...
+    pub apply_live: fn(view: &mut dyn std::any::Any, vi: usize) -> Result<String, String>,
+    /// ... call the getter, ...
+    pub get_live: fn(view: &mut dyn std::any::Any) -> Result<String, String>,
+    /// ... print the document.
+    pub print_live: fn(view: &mut dyn std::any::Any) -> Result<String, String>,
+}
+
+/// Recover the (document, view) pair behind a type-erased live view; `_open` only names the types.
+pub fn downcast_view<D: 'static, V: 'static>(_open: fn(&str) -> Result<(D, V), String>, any: &mut dyn std::any::Any) -> Option<&mut (D, V)> {
+    any.downcast_mut::<(D, V)>()
 }
 
 pub struct ReadRow {
@@ -61,6 +74,9 @@ pub enum C15Case {
     Seq { first: String, second: String },
     /// getter on raw text
     Read { row: String, case: usize },
+    /// setters called one after the other on ONE live view (no re-reading in between): (row key, value index) steps,
+    /// value index n_values = clear; starting from the base paragraph
+    Live { steps: Vec<(String, usize)> },
 }
 
 pub struct C15;
@@ -215,6 +231,74 @@ fn check_seq(a: &Row, b: &Row) -> Vec<Viol> {
     out
 }
 
+fn check_live(steps: &[(String, usize)]) -> Vec<Viol> {
+    let rs = rows();
+    let mut out = vec![];
+    let rows_of: Vec<&Row> = steps.iter().filter_map(|(k, _)| rs.iter().find(|r| key(r) == *k)).collect();
+    if rows_of.len() != steps.len() || rows_of.is_empty() {
+        return out;
+    }
+    let doc = rows_of[0].base.to_string();
+    let ctx = |w: &str| format!("live sequence {:?} on {:?}: {}", steps, doc, w);
+    let mut view = match (rows_of[0].open_live)(&doc) {
+        Ok(v) => v,
+        Err(e) => return vec![viol("setter-applies", ctx(&e))],
+    };
+    // expected reading per field after the steps so far: field -> (row, want)
+    let mut expect: Vec<(&Row, String)> = vec![];
+    for (r, (_, vi)) in rows_of.iter().zip(steps.iter()) {
+        // a setter that already fails alone is reported by its own Set case
+        if let Ok(o) = (r.run)(&doc, *vi) {
+            if o.got != o.want {
+                return out;
+            }
+        }
+        let want = match (r.apply_live)(view.as_mut(), *vi) {
+            Ok(w) => w,
+            Err(e) => return vec![viol("setter-applies", ctx(&format!("{}: {}", key(r), e)))],
+        };
+        expect.retain(|(r2, _)| r2.field != r.field);
+        expect.push((r, want));
+    }
+    for (r, want) in &expect {
+        match (r.get_live)(view.as_mut()) {
+            Ok(g) if g == *want => {}
+            Ok(g) => out.push(viol("live-sequence", ctx(&format!("{} returns {} on the live view, expected {}", key(r), g, want)))),
+            Err(e) => out.push(viol("live-sequence", ctx(&format!("{}: {}", key(r), e)))),
+        }
+    }
+    let printed = match (rows_of[0].print_live)(view.as_mut()) {
+        Ok(p) => p,
+        Err(e) => return vec![viol("live-sequence", ctx(&e))],
+    };
+    for (r, want) in &expect {
+        match (r.get)(&printed) {
+            Ok(g) if g == *want => {}
+            Ok(g) => out.push(viol("live-sequence", ctx(&format!("{} returns {} after re-reading {:?}, expected {}", key(r), g, printed, want)))),
+            Err(e) => out.push(viol("live-sequence", ctx(&format!("{} on re-read text {:?}: {}", key(r), printed, e)))),
+        }
+    }
+    // nothing but the touched fields changed
+    if let (Ok(b), Ok(a)) = (content(&doc), content(&printed)) {
+        let touched: Vec<&str> = rows_of.iter().map(|r| r.field).collect();
+        let strip = |c: &Content| -> Content { c.iter().map(|p| p.iter().filter(|(k, _)| !touched.contains(&k.as_str())).cloned().collect()).collect() };
+        if strip(&b) != strip(&a) {
+            out.push(viol("nothing-else-moves", ctx(&format!("other fields {:?} -> {:?}", strip(&b), strip(&a)))));
+        }
+        // each touched field occurs at most once
+        for f in &touched {
+            let n: usize = a.iter().map(|p| p.iter().filter(|(k, _)| k == f).count()).sum::<usize>();
+            let nb: usize = b.iter().map(|p| p.iter().filter(|(k, _)| k == f).count()).sum::<usize>();
+            if n > 1.max(nb) {
+                out.push(viol("stored-in-one-field-of-that-name", ctx(&format!("{} fields named {:?} in {:?}", n, f, printed))));
+            }
+        }
+    } else {
+        out.push(viol("prints-well-formed", ctx(&format!("printed text {:?} does not parse", printed))));
+    }
+    out
+}
+
 fn check_read(r: &ReadRow, case: usize) -> Vec<Viol> {
     let (text, want) = r.cases[case];
     match (r.get)(text) {
@@ -245,7 +329,7 @@ impl Prop for C15 {
         "exploration"
     }
     fn rule(&self, _t: Tier) -> String {
-        "full product of (accessor pair) x (every value of its menu, plus clearing where supported) x (6 prior states: field absent; present with another value; present with comment lines around and another field after; other fields before and after; inside a two-paragraph document after / before a paragraph of another kind); per view every ordered pair of setters applied in sequence (the text printed after the first is re-read for the second); every (getter, raw text) row of the reading table; non-trivial = every case".into()
+        "full product of (accessor pair) x (every value of its menu, plus clearing where supported) x (6 prior states: field absent; present with another value; present with comment lines around and another field after; other fields before and after; inside a two-paragraph document after / before a paragraph of another kind); per view every ordered pair of setters applied in sequence (the text printed after the first is re-read for the second); per view every ordered pair applied to ONE live view without re-reading, also followed by clearing or re-setting the first; every (getter, raw text) row of the reading table; non-trivial = every case".into()
     }
     fn bounds(&self, _t: Tier) -> Value {
         let rs = rows();
@@ -256,11 +340,11 @@ impl Prop for C15 {
     fn assumptions(&self) -> Vec<String> {
         vec![
             "the Debian field name of every row is hand-written from Policy / deb822 man pages / the accessor's doc comment (trusted base)".into(),
-            "sequences of setters are chained through the printed text (live-object sequences of the underlying set/insert/remove are C04's subject)".into(),
+            "a sequence is skipped when one of its setters already fails alone (reported once, by its own case)".into(),
         ]
     }
     fn n_shards(&self, _t: Tier) -> usize {
-        3
+        4
     }
     fn explore(&self, _t: Tier, shard: usize, f: &mut dyn FnMut(&C15Case) -> Verdict) {
         match shard {
@@ -287,10 +371,31 @@ impl Prop for C15 {
                     }
                 }
             }
-            _ => {
+            2 => {
                 for r in read_rows() {
                     for case in 0..r.cases.len() {
                         f(&C15Case::Read { row: rkey(&r), case });
+                    }
+                }
+            }
+            _ => {
+                // live sequences: every ordered pair (value 0 then value 0), every pair followed by clearing the first
+                // or setting it again to its second value, per view
+                let rs = rows();
+                for a in &rs {
+                    for b in &rs {
+                        if a.view != b.view || a.base != b.base {
+                            continue;
+                        }
+                        f(&C15Case::Live { steps: vec![(key(a), 0), (key(b), 0)] });
+                        if a.accessor != b.accessor {
+                            if a.has_clear {
+                                f(&C15Case::Live { steps: vec![(key(a), 0), (key(b), 0), (key(a), a.n_values)] });
+                            }
+                            if a.n_values > 1 {
+                                f(&C15Case::Live { steps: vec![(key(a), 0), (key(b), 0), (key(a), 1)] });
+                            }
+                        }
                     }
                 }
             }
@@ -313,6 +418,7 @@ impl Prop for C15 {
                     Some(r) if *case < r.cases.len() => check_read(r, *case),
                     _ => vec![],
                 },
+                C15Case::Live { steps } => check_live(steps),
             }
         });
         match r {
@@ -322,6 +428,7 @@ impl Prop for C15 {
                         C15Case::Set { .. } => "set-ok",
                         C15Case::Seq { .. } => "seq-ok",
                         C15Case::Read { .. } => "read-ok",
+                        C15Case::Live { .. } => "live-ok",
                     });
                 }
                 vs
@@ -341,6 +448,13 @@ impl Prop for C15 {
                 }
                 out
             }
+            C15Case::Live { steps } if steps.len() > 1 => (0..steps.len())
+                .map(|i| {
+                    let mut s = steps.clone();
+                    s.remove(i);
+                    C15Case::Live { steps: s }
+                })
+                .collect(),
             _ => vec![],
         }
     }
